@@ -1,6 +1,6 @@
 #!/bin/bash
 # dev helper: lib/dev.sh setup | lib/dev.sh run <harness> [timeout] | lib/dev.sh sync
-D=/var/tmp/rdest-dev
+D=${DEVDIR:-/var/tmp/rdest-dev}
 case "$1" in
   setup)
     rm -rf $D; VERIF_SCRATCH=/var/tmp python3 - <<PY
